@@ -157,14 +157,15 @@ theorem history_inv (cbs : Cbs) (g : Good cbs) (o : Plugin) (hm : o ∈ cbs) (hk
     have h := exec_inv (hord (ord, cmd) mem_cons_self) g hm hn cmd
     exact ih _ h.1 h.2 (fun c hc => hord c (mem_cons_of_mem _ hc))
 
-/-- **reload_import_failure_keeps.**  `reload` of a loaded plugin whose module now fails with an
-`ImportError` (or no longer exists) answers with an error and leaves exactly the previously
-registered plugins registered (the old instance is put back; its position may change, the
-constraints still hold). -/
-theorem reload_import_failure_keeps {ord : Ord} (ho : OrdOk ord) {cbs : Cbs} (g : Good cbs) (name : Name)
+/-- **reload_failure_preserves.**  `reload` of a loaded plugin whose module cannot be imported any
+more — `ImportError`, no such plugin, or any other exception while importing (syntax error …) —
+answers with an error and leaves exactly the previously registered plugins registered: the old
+instance, untouched so far, is put back (its position may change, all constraints still hold). -/
+theorem reload_failure_preserves {ord : Ord} (ho : OrdOk ord) {cbs : Cbs} (g : Good cbs) (name : Name)
     (avail : Option Plugin) (f : Faults) (hno : isOwnerName name = false)
-    (hl : (getCallback cbs name).isSome) (hf : f.importError = true ∨ avail = none) :
-    (reload ord cbs name avail f).1 = .error "no plugin" ∧ (reload ord cbs name avail f).2.Perm cbs ∧
+    (hl : (getCallback cbs name).isSome)
+    (hf : f.importError = true ∨ avail = none ∨ f.importOther = true) :
+    (reload ord cbs name avail f).1 ≠ .success ∧ (reload ord cbs name avail f).2.Perm cbs ∧
     Good (reload ord cbs name avail f).2 := by
   obtain ⟨q, hq⟩ := Option.isSome_iff_exists.mp hl
   have hql := (getCallback_mem hq).2
@@ -183,12 +184,22 @@ theorem reload_import_failure_keeps {ord : Ord} (ho : OrdOk ord) {cbs : Cbs} (g 
   obtain ⟨r, hr⟩ := acyclic_accepted ho gf.wf hnew
     ⟨cbs, hperm.symm, fun e he => g.resp e ((edgesOf_perm hw' hperm.symm e).mpr he)⟩
   have hrp := (addCallback_ok ho gf.wf hr).2.1
-  have hcond : (f.importError || avail.isNone) = true := by
-    rcases hf with h | h <;> simp [h]
-  have heq : reload ord cbs name avail f = (.error "no plugin", r) := by
+  have heq : reload ord cbs name avail f = (.error "no plugin", r) ∨
+      reload ord cbs name avail f = (.exception, r) := by
     unfold reload
-    simp only [hno, Bool.false_eq_true, if_false, hbad, isEmpty_cons, hcond, if_true, readd, hr]
-  refine ⟨by rw [heq], by rw [heq]; exact hrp.trans hperm, (reload_good ho g name avail f).1⟩
+    by_cases hcond : (f.importError || avail.isNone) = true
+    · left
+      simp only [hno, Bool.false_eq_true, if_false, hbad, isEmpty_cons, hcond, if_true, readd, hr]
+    · right
+      have ho' : f.importOther = true := by
+        rcases hf with h | h | h
+        · simp [h] at hcond
+        · simp [h] at hcond
+        · exact h
+      simp only [hno, Bool.false_eq_true, if_false, hbad, isEmpty_cons, hcond, ho', if_true, readd, hr]
+  refine ⟨?_, ?_, (reload_good ho g name avail f).1⟩
+  · rcases heq with h | h <;> rw [h] <;> simp
+  · rcases heq with h | h <;> rw [h] <;> exact hrp.trans hperm
 
 /-! ### several networks -/
 
@@ -258,7 +269,6 @@ def pA : Plugin := ⟨['A'], .plain, [['B']], [], [['a']]⟩     -- callBefore =
 def pB : Plugin := ⟨['B'], .plain, [], [], [['b']]⟩
 def pB' : Plugin := ⟨['B'], .plain, [['A']], [], [['b']]⟩    -- callBefore = ['A']: closes a cycle with pA
 def pS : Plugin := ⟨['S'], .plain, [['S'], "Owner".toList], [], []⟩   -- names itself and wants to precede Owner
-def pS' : Plugin := ⟨['S'], .plain, ["Owner".toList], [], []⟩         -- the same wish without the self-reference
 
 deriving instance DecidableEq for Except
 instance (cbs : Cbs) : Decidable (WF cbs) := by unfold WF; exact inferInstance
@@ -294,33 +304,38 @@ theorem reload_ctor_counter :
     (reload id [pOwner, pB, pMisc] ['B'] (some pB) { ctorRaises := true }).2 = [pOwner, pMisc] := by
   decide
 
-/-- **reload_failure_partial.**  What does hold for `reload`: with an `ImportError` (or no such
-plugin any more) the old callbacks are re-added; in every failing case nothing *else* is lost —
-the result is the old list without the reloaded name, or has it back. -/
-theorem reload_failure_partial (ord : Ord) (cbs : Cbs) (name : Name) (avail : Option Plugin) (f : Faults)
-    (h1 : f.importError = false) (h2 : avail.isSome)
-    (hf : f.importOther = true ∨ f.ctorRaises = true)
+/-- **reload_failure_partial.**  What remains of "a raising constructor leaves the previously loaded
+set registered" for `reload`: nothing *else* is lost — the result is the old list without the
+reloaded name.  (The old instance has been `die()`d before the new one is built; building the new
+one first would run two instances of a plugin side by side, which plugins holding a named
+scheduler event or an HTTP hook cannot bear.) -/
+theorem reload_failure_partial (ord : Ord) (cbs : Cbs) (name : Name) (p : Plugin) (f : Faults)
+    (h1 : f.importError = false) (h2 : f.importOther = false) (hf : f.ctorRaises = true)
     (hno : isOwnerName name = false) (hl : ((removeCallback cbs name).1).isEmpty = false) :
-    reload ord cbs name avail f = (.exception, (removeCallback cbs name).2) := by
+    reload ord cbs name (some p) f = (.exception, (removeCallback cbs name).2) := by
   unfold reload
-  simp only [hno, Bool.false_eq_true, if_false, hl, h1, Bool.false_or]
-  cases avail with
-  | none => cases h2
-  | some p =>
-    simp only [Option.isNone_some, Bool.false_eq_true, if_false]
-    rcases hf with hf | hf
-    · simp [hf]
-    · by_cases hx : f.importOther = true
-      · simp [hx]
-      · simp [hx, hf]
+  simp [hno, hl, h1, h2, hf]
 
-/-- **self_reference_counter** (finding C20-self-reference).  A plugin that names itself in
-`callBefore` is accepted and all its constraints are dropped (the assertion in `callPrecedence` is
-swallowed by the firewall): here it ends up *after* Owner although it declares "before Owner" —
-the same declaration without the self-reference is rejected as the cycle it is. -/
-theorem self_reference_counter :
-    addCallback id [pOwner, pMisc] pS = .ok [pOwner, pS, pMisc] ∧
-    addCallback id [pOwner, pMisc] pS' = .error (.assertion, [pOwner, pMisc]) := by
-  decide
+/-- **self_reference_rejected.**  A plugin that names itself in `callBefore` or `callAfter` (in any
+capitalisation) declares a cycle of length one: it is refused and the list stays as it was. -/
+theorem self_reference_rejected {ord : Ord} (ho : OrdOk ord) {cbs : Cbs} (hw : WF cbs) {p : Plugin}
+    (hk : p.kind = .plain) (hnew : getCallback cbs p.name = none) {n : Name}
+    (hn : n ∈ p.callBefore ∨ n ∈ p.callAfter) (hl : lower n = lower p.name) :
+    addCallback ord cbs p = .error (.assertion, cbs) := by
+  apply cycle_rejected ho hw
+  rintro ⟨l, hperm, hresp⟩
+  have hw' := (hw.snoc hnew)
+  have hg : getCallback (cbs ++ [p]) n = some p :=
+    getCallback_unique hw' (mem_append.mpr (Or.inr (mem_singleton.mpr rfl))) hl.symm
+  have hedge : (p.name, p.name) ∈ edgesOf (cbs ++ [p]) := by
+    refine mem_edgesOf.mpr ⟨p, mem_append.mpr (Or.inr (mem_singleton.mpr rfl)), ?_⟩
+    unfold precedence
+    rw [hk]
+    rcases hn with hn | hn
+    · exact Or.inr ⟨p.name, mem_map.mpr ⟨p, mem_filterMap.mpr ⟨n, hn, hg⟩, rfl⟩, rfl⟩
+    · exact Or.inl ⟨p.name, mem_map.mpr ⟨p, mem_filterMap.mpr ⟨n, hn, hg⟩, rfl⟩, rfl⟩
+  exact before_irrefl (hw'.perm hperm).names_nodup (hresp _ hedge)
+
+example : addCallback id [pOwner, pMisc] pS = .error (.assertion, [pOwner, pMisc]) := by decide
 
 end C20
